@@ -86,6 +86,8 @@ typedef struct Hnd {
     int open, id, fi, e;
     long pos;
     int wr, app, special, dangling;
+    int opened_new; /* opened while the element had no length, and no Hread/Hwrite/Hsetlength through this id since (HIrefresh_new) */
+    int stale_new;  /* F24 residue: converted to linked blocks through this id while its "new" flag was stale */
     int32 aid;
 } Hnd;
 
@@ -111,7 +113,15 @@ static Store *new_store(void)
     return s;
 }
 
-static const char *key_of(Elem *e, const char *k) { return e && e->taint ? e->taint : k; }
+/* keys that name a root cause of their own are never replaced by an element's taint */
+static int specific_key(const char *k)
+{
+    static const char *const S[] = {"elem-read-reserved-fail", "elem-promote-dangling-id", "elem-trunc-linked", KEY_GAP_INPLACE, KEY_GAP_REUSE,
+                                    "elem-stale-new-after-convert", "elem-read-past-end-fail", NULL};
+    for (int i = 0; S[i]; i++) if (!strcmp(S[i], k)) return 1;
+    return 0;
+}
+static const char *key_of(Elem *e, const char *k) { return e && e->taint && !specific_key(k) ? e->taint : k; }
 
 /* ---- geometry (only used to aim seeks and writes at block and table boundaries) ---- */
 static void locate(Elem *e, long p, long *b, long *rel)
@@ -186,6 +196,7 @@ static void after_open(Hnd *h, int fi, int ei, int32 aid, int wr, int app)
     Elem *e = &F[fi].el[ei];
     int16 sp = 0;
     h->open = 1; h->fi = fi; h->e = ei; h->aid = aid; h->pos = 0; h->wr = wr; h->app = app; h->dangling = 0;
+    h->opened_new = e->len < 0; h->stale_new = 0;
     Hinquire(aid, NULL, NULL, NULL, NULL, NULL, NULL, NULL, &sp);
     h->special = sp != 0;
     if (sp && !e->linked) learn_geometry(e, aid, 1);
@@ -404,6 +415,9 @@ static void check_promotion(Hnd *h)
     if (h->special) return;
     if (Hinquire(h->aid, NULL, NULL, NULL, NULL, NULL, NULL, NULL, &sp) == FAIL || !sp) return;
     h->special = 1;
+    /* F24 residue: HLconvert does not clear new_elem and HIrefresh_new does not look at special records */
+    if (h->opened_new && e->len >= 0) h->stale_new = 1;
+    h->opened_new = 0;
     if (e->len < 0) e->len = 0; /* HLconvert gave the still empty element the length 0 */
     learn_geometry(e, h->aid, 1);
     for (int i = 0; i < MAXH; i++) {
@@ -434,6 +448,7 @@ static void t_write(Hnd *h, long n)
     if (e->aliased && (p + n > e->len)) return;
     gen_bytes(wbuf, n);
     int32 rc = Hwrite(h->aid, (int32)n, wbuf);
+    if (h->wr && !h->special) h->opened_new = 0; /* HIrefresh_new saw the length, or this write gave the element one */
     printf("T elem write %d ", h->id); hk_hex(wbuf, (size_t)n); printf(" => ");
     if (rc == FAIL) printf("fail\n"); else printf("%d\n", (int)rc);
     int expect = n >= 1 && h->wr && (e->len < 0 || p + n <= e->len || h->app || e->linked);
@@ -460,6 +475,7 @@ static void t_read(Hnd *h, long n, const char *forced_key)
     if (n < 0 || n > CAP - 100 || (len > CAP - 100)) return;
     memset(rbuf, 0x5a, sizeof rbuf);
     int32 rc = Hread(h->aid, (int32)n, rbuf);
+    if (e->len >= 0 && !h->special) h->opened_new = 0; /* HIrefresh_new saw the length */
     printf("T elem read %d %ld => ", h->id, n);
     long want = len < 0 ? -1 : (p >= len ? 0 : (n == 0 || p + n > len) ? len - p : n);
     int failed = 0;
@@ -472,6 +488,7 @@ static void t_read(Hnd *h, long n, const char *forced_key)
             if (p > len) k = "elem-read-past-end-fail";
             else if (p == len) k = "elem-read-at-end-fail";
             else if (undef) k = "elem-read-reserved-fail";
+            else if (h->stale_new) k = "elem-stale-new-after-convert"; /* repaired by dc05857; scenario_two_ids_new is the sharp regression test */
             hk_fail(forced_key ? forced_key : key_of(e, k), "Hread(%ld) at %ld fails, %ld byte(s) expected (length %ld)", n, p, want, len);
             failed = 1;
         }
@@ -744,6 +761,39 @@ static void scenario_stale_gap_inplace(long cut, long gap)
     Hclose(fid);
 }
 
+/* regression for 7f7ac10 + dc05857 (F24 and its residue): two ids on an element without length; the second one must see
+   the length the first one gave it, also after being converted to linked blocks with a stale "new" flag */
+static void scenario_two_ids_new(int convert, int viaseek)
+{
+    static uint8_t w[8] = {1, 2, 3, 4, 5, 6, 7, 8}; /* not on the stack: see the fwrite interposer */
+    uint8_t b[32];
+    int32 fid = Hopen(hk_tmp("z.hdf"), DFACC_CREATE, 16);
+    if (fid == FAIL) return;
+    int32 a1 = Hstartaccess(fid, 202, 1, DFACC_RDWR), a2 = Hstartaccess(fid, 202, 1, DFACC_RDWR | DFACC_APPENDABLE);
+    Hwrite(a1, 4, w); Hendaccess(a1);
+    Hputelement(fid, 202, 2, w, 1); /* 202/1 is not the last element any more */
+    if (convert) {
+        if (viaseek) Hseek(a2, 6, DF_START); else HLconvert(a2, 8, 2);
+        Hseek(a2, 0, DF_START);
+        memset(b, 0x5a, sizeof b);
+        int32 n = Hread(a2, 4, b);
+        if (n != 4 || memcmp(b, w, 4)) hk_fail("elem-stale-new-after-convert", "Hread through an id converted with a stale new flag returns %d", (int)n);
+        if (Hsetlength(a2, 5) != FAIL) hk_fail("elem-stale-new-after-convert", "Hsetlength through an id converted with a stale new flag succeeds");
+    }
+    else {
+        if (Hwrite(a2, 2, w + 4) != 2) hk_fail("elem-two-ids-on-new-element", "Hwrite through the second id fails");
+    }
+    Hendaccess(a2); Hclose(fid);
+    fid = Hopen(hk_tmp("z.hdf"), DFACC_READ, 0);
+    if (fid == FAIL) return;
+    memset(b, 0x5a, sizeof b);
+    int32 n = Hgetelement(fid, 202, 1, b);
+    uint8_t want[4] = {1, 2, 3, 4};
+    if (!convert) { want[0] = 5; want[1] = 6; }
+    if (n != 4 || memcmp(b, want, 4)) hk_fail(convert ? "elem-stale-new-after-convert" : "elem-two-ids-on-new-element", "after reopen Hgetelement returns %d, first bytes %02x %02x %02x %02x", (int)n, b[0], b[1], b[2], b[3]);
+    Hclose(fid);
+}
+
 static void run_case(int k)
 {
     memset(F, 0, sizeof F); memset(H, 0, sizeof H);
@@ -804,6 +854,7 @@ static void run_case(int k)
     for (int i = 0; i < MAXF; i++) if (F[i].present) unlink(F[i].path);
     if (k % 16 == 5) scenario_failed_read_then_write();
     if (k % 16 == 11) scenario_stale_gap_inplace(hk_range(0, 40), hk_range(1, 20));
+    if (k % 16 == 3) scenario_two_ids_new((int)hk_range(0, 1), (int)hk_range(0, 1));
     if (uninit_seen) { hk_fail("elem-uninit-byte-written", "HPgetdiskblock stored %ld uninitialised non-zero byte(s) in the file (write-through mode)", uninit_seen); uninit_seen = 0; }
     hk_stat("ops", opcount);
 }
